@@ -6,6 +6,7 @@ Property theorems only. Model: `Compress.Meta.Codec`; lemmas:
 -/
 import Compress.Meta.Codec
 import Compress.Proofs.Meta
+import Compress.Proofs.MetaLocate
 
 namespace Compress.Props.C16
 open Compress Compress.Meta
@@ -38,6 +39,33 @@ theorem C16_fit22 (payload : List UInt8) (final : FinalMode) (h : payload.length
 theorem C16_block_aligned (buf : List UInt8) (final : FinalMode) (bits : Bits)
     (h : encodeBlock buf final = some bits) : bits.length % 8 = 0 :=
   Compress.Proofs.Meta.encodeBlock_aligned buf final bits h
+
+/-- M3: every encoded block is 12 to 64 bytes long. -/
+theorem C16_block_size (buf : List UInt8) (final : FinalMode) (bits : Bits)
+    (h : encodeBlock buf final = some bits) : 12 * 8 ≤ bits.length ∧ bits.length ≤ 64 * 8 :=
+  Compress.Proofs.MetaLocate.encodeBlock_size buf final bits h
+
+/-- `ReverseSearch` returns the last index whose 4-byte window (zero-extended at
+    the tail) carries the block signature, or -1. -/
+theorem C16_reverseSearch_spec (data : List UInt8) :
+    (reverseSearch data = -1 ∧ ∀ i, i < data.length → Compress.Proofs.MetaLocate.magicAt data i = false) ∨
+    (∃ k : Nat, reverseSearch data = (k : Int) ∧ k < data.length ∧ Compress.Proofs.MetaLocate.magicAt data k = true ∧
+       ∀ i, k < i → i < data.length → Compress.Proofs.MetaLocate.magicAt data i = false) :=
+  Compress.Proofs.MetaLocate.reverseSearch_spec data
+
+/-- M4: inside an encoded block the signature matches at the block start only. -/
+theorem C16_magic_only_at_start (buf : List UInt8) (final : FinalMode) (bits : Bits)
+    (h : encodeBlock buf final = some bits) :
+    Compress.Proofs.MetaLocate.magicAt (Bits.toBytes bits) 0 = true ∧
+    ∀ i, 0 < i → i < (Bits.toBytes bits).length → Compress.Proofs.MetaLocate.magicAt (Bits.toBytes bits) i = false :=
+  Compress.Proofs.MetaLocate.magic_only_at_start buf final bits h
+
+/-- M4 (use): a backward search over anything followed by one block finds that
+    block — this is how `decodeFooter` locates the footer. -/
+theorem C16_reverseSearch_finds_last_block (pre buf : List UInt8) (final : FinalMode) (bits : Bits)
+    (h : encodeBlock buf final = some bits) :
+    reverseSearch (pre ++ Bits.toBytes bits) = (pre.length : Int) :=
+  Compress.Proofs.MetaLocate.reverseSearch_finds_last_block pre buf final bits h
 
 -- non-vacuity: a footer payload really is encodable, as a single block, and decodes back
 example : (encode [0x58, 0x46, 0x00, 0x0a] .fstream).isSome = true := by decide
